@@ -126,6 +126,7 @@ def audit(pid, theorems, imports, work):
     src = "".join("import %s\n" % m for m in imports)
     for t in theorems:
         src += "#print axioms %s\n" % t
+    os.makedirs(os.path.join(LEAN, "MdsVerif", "Audit"), exist_ok=True)
     path = os.path.join(LEAN, "MdsVerif", "Audit", pid + ".lean")
     old = None
     try:
